@@ -134,6 +134,30 @@ CHECKS = {
         "exhaustive": {"quick": True, "thorough": True},
         "trusted_base": ["reference model of the authorisation database in harness/chk-snap/src/c09.rs", "ana-gotatun WireGuard clients"],
     },
+    "C05": {
+        "engines": [
+            eng("native-release", "chk-stack", NATIVE_REL, params={"all": {"scale": 3}}),
+            eng("native-debugassert", "chk-stack", NATIVE_CHK, params={"all": {"scale": 1}}),
+        ],
+        "exhaustive": {"quick": False, "thorough": False},
+        "trusted_base": ["the monitor's own policy evaluation over path metadata (harness/chk-stack/src/world.rs)", "task emulation under ideal scheduling"],
+    },
+    "C06": {
+        "engines": [
+            eng("native-release", "chk-stack", NATIVE_REL, params={"all": {"scale": 3}}),
+            eng("native-debugassert", "chk-stack", NATIVE_CHK, params={"all": {"scale": 1}}),
+        ],
+        "exhaustive": {"quick": False, "thorough": False},
+        "trusted_base": ["virtual clock and task emulation in harness/chk-stack/src/world.rs"],
+    },
+    "C07": {
+        "engines": [
+            eng("native-release", "chk-stack", NATIVE_REL, params={"all": {"scale": 3}}),
+            eng("native-debugassert", "chk-stack", NATIVE_CHK, params={"all": {"scale": 1}}),
+        ],
+        "exhaustive": {"quick": False, "thorough": False},
+        "trusted_base": ["the monitor's interface-use predicate over path metadata", "task emulation under ideal scheduling"],
+    },
 }
 
 LEVEL = {p: "exploration" for p in CHECKS}
